@@ -40,7 +40,7 @@ TRUSTED = [
     ("G-intersects", "a.intersects(b) / shapely.intersects_xy(a, x, y): the two point sets share a point / (x, y) is a point of a"),
     ("G-bounds", "g.bounds = (minx, miny, maxx, maxy) encloses every point of g"),
     ("G-disc-polygon", "the polygon of a CircularRegion is identified with the exact disc (resolution -> infinity)"),
-    ("N-norm", "numpy.linalg.norm(a) without axis = sqrt of the sum of ALL squared entries (one scalar); with axis=1 on an (n,3) array the n row norms"),
+    ("N-norm", "numpy.linalg.norm(a) without axis = sqrt of the sum of ALL squared entries (one scalar); with axis=1 on an (n,3) array the n row norms; the norm is a function of its argument and even (|-v| = |v|)"),
     ("N-argmin", "numpy.argmin of a scalar is 0; of a 1-D array the first index of a minimal entry"),
     ("N-broadcast", "array - vector subtracts the vector from every row; scalar * array scales every entry; array[i] is row i"),
     ("T-ray", "mesh.ray.intersects_location(origins, directions, multiple_hits=False) returns the first hit of each ray that hits the mesh, in the order of the rays; a hit of ray (o, d) is o + t d with t >= 0"),
@@ -791,9 +791,35 @@ def _map(A, f):
 
 
 def _norm_of(I, xs):
+    """Euclidean norm of a list of entries.  The norm is a FUNCTION of its argument: the same entries (same terms) give
+    the same value on a path (one Skolem constant per distinct argument list), so that a specification which mentions
+    `|v - q|` talks about the very term the program computes."""
     if not xs:
         return 0.0
-    return BM.mhypot(I, *xs) if len(xs) > 1 else BM.mabs(I, xs[0])
+    if len(xs) == 1:
+        return BM.mabs(I, xs[0])
+    if not any(isinstance(x, SV) for x in xs):
+        return BM.mhypot(I, *xs)
+    cache = world(I).__dict__.setdefault("norms", {})
+    key = tuple(toz3(x, want_real=True).get_id() for x in xs)
+    if key not in cache:
+        # the norm is even: |-v| = |v| (same value for the negated argument list)
+        neg = tuple(z3.simplify(-toz3(x, want_real=True)).get_id() for x in xs)
+        cache[key] = cache[neg] if neg in cache else BM.mhypot(I, *xs)
+    return cache[key]
+
+
+def norm_of_difference(I, a, b):
+    """|a - b| for coordinate sequences, as numpy computes it (entry-wise difference, then the norm)."""
+    a, b = list(a), list(b)
+    cache = world(I).__dict__.setdefault("norms", {})
+    fwd = [arith("-", x, y) for x, y in zip(a, b)]
+    rev = [arith("-", y, x) for x, y in zip(a, b)]
+    kf = tuple(toz3(x, want_real=True).get_id() for x in fwd)
+    kr = tuple(toz3(x, want_real=True).get_id() for x in rev)
+    if kf not in cache and kr in cache and any(isinstance(x, SV) for x in fwd):
+        cache[kf] = cache[kr]  # |a - b| = |b - a|
+    return _norm_of(I, fwd)
 
 
 def _make_numpy(I):
